@@ -33,6 +33,7 @@ type clientRun struct {
 	SentOK    []*gen.Msg
 	CancelIdx int // index of the op after which cancel() ran (-1: never)
 	Hung      bool
+	Slow      bool // an op outlived its watchdog but returned in the grace period: do not judge the case
 }
 
 // badMsg cannot be marshalled by the proto codec (invalid UTF-8 in a string).
@@ -65,6 +66,9 @@ type scripted struct {
 	blockAfter  time.Duration
 	handlerDone <-chan struct{}
 	nextID      uint64
+	// noGrace: a watchdog that fires is final (used where the hang is a listed
+	// known finding: re-observing it should not cost the grace period)
+	noGrace bool
 }
 
 func (s *scripted) run(program []string) *clientRun {
@@ -107,6 +111,12 @@ func (s *scripted) run(program []string) *clientRun {
 			case <-deadline:
 				buf := make([]byte, 1<<20)
 				res.Dump = string(buf[:runtimeStack(buf)])
+				if !s.noGrace && !confirmHang(done) {
+					// slow, not hung (see watchdog): the case is not judged
+					res.Returned = true
+					cr.Slow = true
+					res.Dump = ""
+				}
 				break wait
 			}
 		}
